@@ -154,6 +154,12 @@ def Arr.memo {α : Type} (a : Arr α) : Arr α :=
   let cache := (Array.range a.n).map a.get
   ⟨a.n, fun i => if h : i < cache.size then cache[i] else a.get i⟩
 
+/-- `a *= c` on a whole array -/
+def Arr.scale {α : Type} [Mul α] (a : Arr α) (c : α) : Arr α := ⟨a.n, fun i => a.get i * c⟩
+
+/-- Python / NumPy index into an axis of length `n`: a negative index counts from the end -/
+def Np.pyIndex (n : Nat) (i : Int) : Nat := if i < 0 then Int.toNat ((n : Int) + i) else Int.toNat i
+
 /-! ### NumPy primitives used by vectorised code (contracts of the library functions) -/
 namespace Np
 variable {α : Type} [RealLike α]
